@@ -20,18 +20,18 @@ type freeBinding struct {
 }
 
 type Env struct {
-	v        *Verifier
-	vars     map[string]Value
-	pkgPath  string
-	fnFrame  *Frame
-	old      *State
-	inOld    bool
-	atReturn bool
-	freeVars []freeBinding
-	depth    int
-	nq       int
-	acqMode  bool
-	which    *State // state selected by the innermost old()/acq()
+	v          *Verifier
+	vars       map[string]Value
+	pkgPath    string
+	fnFrame    *Frame
+	old        *State
+	inOld      bool
+	atReturn   bool
+	freeVars   []freeBinding
+	depth      int
+	nq         int
+	acqMode    bool
+	which      *State          // state selected by the innermost old()/acq()
 	boundNames map[string]bool // names of the SMT constants bound by enclosing quantifiers
 }
 
@@ -436,6 +436,13 @@ func (env *Env) ident(st *State, name string) Value {
 			return val
 		}
 	}
+	if v.fc != nil {
+		if _, ok := v.fc.GhostLocals[name]; ok {
+			if gv, ok := env.cur(st).glocals[name]; ok {
+				return gv
+			}
+		}
+	}
 	if gv, ok := v.e.ct.GhostVars[name]; ok {
 		t, err := v.e.resolveType(gv.Type, gv.PkgPath)
 		if err != nil {
@@ -667,7 +674,7 @@ type location struct {
 	blk, off *Term
 	typ      types.Type
 	size     int
-	whole    bool // the whole block
+	whole    bool  // the whole block
 	rangeLen *Term // with whole: only offsets [off, off+rangeLen) (nil: every offset)
 	mapType  *types.Map
 	ghostKey string // type key for ghost fields
@@ -849,6 +856,14 @@ func (env *Env) call(st *State, e CCall) Value {
 			return intVal(x.L[3])
 		}
 		env.fail("cap of %v", x.T)
+	case "closed":
+		// closed(ch): close(ch) has been executed (by this invocation, or as a callee's contract says)
+		c := arg(0)
+		if _, ok := c.T.Underlying().(*types.Chan); !ok || len(c.L) != 1 {
+			env.fail("closed(ch): ch is not a channel")
+		}
+		cs := env.cur(st)
+		return boolVal(mk("select", SBool, cs.mapArr("chan$closed", ArraySort(SInt, SBool)), c.L[0]))
 	case "in":
 		k := arg(0)
 		m := arg(1)
@@ -1014,6 +1029,11 @@ func (env *Env) call(st *State, e CCall) Value {
 				name = fmt.Sprintf("%s.%d", f.Name, i)
 			}
 			out.L[i] = v.e.sy.App("fn_"+name, sl.K.Sort(), leaves...)
+			// a pointer named by a specification function is a pointer of the program: it is not one
+			// of the ghost / frozen blocks that live below every pointer value
+			if sl.Role == RBlk && env.nq == 0 {
+				st.assume(Gt(out.L[i], IntLit(-2000000000)))
+			}
 		}
 		return out
 	}
